@@ -22,9 +22,9 @@ def T(name, entry, d, tiers=("quick", "thorough"), defs=(), **kw):
 UNITS = []
 for m in avl_shapes(3):
     b = "AVL tree shape 0x%02x (heap positions) of depth <= 3, keys and positions symbolic" % m
-    UNITS.append(T("avl_insert_d3_s%02x" % m, "h_insert", 3, defs=["A_SIZE_POINTER=1", "SHAPE=0x%x" % m], functions=INS, bound=b, timeout=300))
+    UNITS.append(T("avl_insert_d3_s%02x" % m, "h_insert", 3, defs=["A_SIZE_POINTER=1", "SHAPE=0x%x" % m], functions=INS, bound=b, timeout=900))
     if m:
-        UNITS.append(T("avl_remove_d3_s%02x" % m, "h_remove", 3, defs=["A_SIZE_POINTER=1", "SHAPE=0x%x" % m], functions=REM, bound=b, timeout=300))
+        UNITS.append(T("avl_remove_d3_s%02x" % m, "h_remove", 3, defs=["A_SIZE_POINTER=1", "SHAPE=0x%x" % m], functions=REM, bound=b, timeout=900))
 UNITS += [
     U("avl_packed_accessors", "trees.c", "h_packed", level="P", functions=["a_avl_set_parent_factor", "a_avl_set_parent", "a_avl_set_factor", "a_avl_parent", "a_avl_factor", "a_avl_init"], replay=RP, min_obl=3, defines=["D=2"], cbmc=["--object-bits", "10"]),
     T("avl_insert_d2_packed", "h_insert", 2, tiers=("thorough",), functions=INS, timeout=1800, cost=100, mem_gb=40),
